@@ -466,7 +466,7 @@ def run(ctx: Context, R: Reporter):
 
 
 def variants():
-    from ..variants import Variant, alpha_rename, delete_stmt, insert_after, insert_before, replace_expr, replace_stmt
+    from ..variants import Variant, alpha_rename, delete_stmt, insert_after, insert_before, replace_expr, replace_if, replace_stmt
 
     mc = "tempest/mcmc.py"
     rs = "tempest/steps/resample.py"
@@ -486,7 +486,7 @@ def variants():
         Variant("b-x-from-old-u", "bad", replace_expr(mc, "BaseMCMCRunner.run", "np.array([self.prior_transform(u_p) for u_p in u_prime])", "np.array([self.prior_transform(u_p) for u_p in self.u])"), ["C07.b"], quick=True),
         Variant("b-logl-from-old-x", "bad", replace_expr(mc, "BaseMCMCRunner.run", "self._evaluate_likelihood(x_prime)", "self._evaluate_likelihood(self.x)"), ["C07.b"]),
         Variant("b-prior-store-wrong-x", "bad", replace_expr(mu, "Mutator.run", "{'u': u, 'x': x, 'logl': logl, 'blobs': blobs, 'assignments': assignments, 'calls': calls, 'steps': 1, 'acceptance': 1.0, 'efficiency': 1.0}", "{'u': u, 'x': u, 'logl': logl, 'blobs': blobs, 'assignments': assignments, 'calls': calls, 'steps': 1, 'acceptance': 1.0, 'efficiency': 1.0}"), ["C07.b"]),
-        Variant("c-rwm-no-check", "bad", replace_stmt(mc, "RWMRunner._propose", "if check_bounds(proposal, self.periodic, self.reflective):\n    return proposal", "return proposal"), ["C07.c"], quick=True),
+        Variant("c-rwm-no-check", "bad", replace_if(mc, "RWMRunner._propose", "check_bounds(proposal, self.periodic, self.reflective)", "return proposal"), ["C07.c"], quick=True),
         Variant("c-tpcn-no-map", "bad", delete_stmt(mc, "TPCNRunner._propose", "proposal = apply_boundary_conditions(proposal, self.periodic, self.reflective)"), ["C07.c"]),
         Variant("d-swap-u-x-unpack", "bad", replace_expr(mu, "Mutator.run", "{'u': u, 'x': x, 'logl': logl, 'efficiency': efficiency, 'acceptance': acceptance, 'steps': steps}", "{'u': x, 'x': u, 'logl': logl, 'efficiency': efficiency, 'acceptance': acceptance, 'steps': steps}"), ["C07.d"], quick=True),
         Variant("e-commit-skips-blobs", "bad", replace_expr(sm, "StateManager.commit_current_to_history", "current_key in HISTORY_STATE_KEYS", "current_key in HISTORY_STATE_KEYS and current_key != 'blobs'"), ["C07.e"]),
